@@ -301,7 +301,7 @@ func (x *Exec) Discharge(cfg *SolverCfg) []*Result {
 					}
 					os.WriteFile(file, []byte(v.script), 0o644)
 					if v.quick {
-						to := 3 * time.Second
+						to := 8 * time.Second
 						if cfg.Timeout < to {
 							to = cfg.Timeout
 						}
